@@ -151,6 +151,11 @@ func c17Expected(recs []rdbgen.Record) []string {
 	return out
 }
 
+// c17Stale is what an earlier decode of a larger file left in the output file.
+func c17Stale() []byte {
+	return bytes.Repeat([]byte(`{"db":15,"type":"string","expireat":0,"key":"stale-key-of-an-earlier-run","key64":"","value":"x","value64":""}`+"\n"), 3000)
+}
+
 // c17Parse turns the tool's output into the same canonical lines.
 func c17Parse(output []byte) ([]string, string) {
 	var out []string
@@ -250,6 +255,8 @@ func c17RunFile(c c17Case, files [][]rdbgen.Item) (kind, what string) {
 	}
 	defer os.Remove(in)
 	defer os.Remove(outp)
+	// the output of an earlier decode of a larger file is still there: the run replaces it
+	ioutil.WriteFile(outp, c17Stale(), 0644)
 	conf.Options.Parallel = c.Parallel
 	aborted := false
 	hook.SetExitHook(func(int) { aborted = true })
@@ -294,6 +301,7 @@ func c17Main(c c17Case, files [][]rdbgen.Item) (kind, what string) {
 		ioutil.WriteFile(in, file, 0644)
 		defer os.Remove(in)
 		defer os.Remove(fmt.Sprintf("%s.%d", prefix, k))
+		ioutil.WriteFile(fmt.Sprintf("%s.%d", prefix, k), c17Stale(), 0644)
 		inputs = append(inputs, in)
 		want = append(want, c17Expected(recs))
 	}
